@@ -276,18 +276,18 @@ func checkC14(c *Ctx, r *Report) {
 			return false, ""
 		},
 		exceptions: map[string]string{
-			"transport/ardop.newBroadcaster$1|index receivers[i]":          "loop index discipline: i < len(receivers) is tested at the top of every iteration and i-- only follows the removal of element i",
-			"transport/ardop.newBroadcaster$1|slice receivers[:i]":         "same loop: 0 <= i < len(receivers) holds where a receiver is removed",
-			"transport/ardop.newBroadcaster$1|slice receivers[i + 1:]":     "same loop: i+1 <= len(receivers)",
-			"transport/ardop.readFrameOfType|slice data[:len(data) - 1]":   "reached only for frame type 'c', where data is the result of ReadBytes whose error was tested nil by the check after the first switch (len >= 1); the correlation between the two switches on fType is not visible to dominance",
-			"(*transport/ardop.tncConn).Write|slice buf.Bytes()[2:]":       "local data path (Write): the buffer holds at least the two prefix bytes written a few lines above; not reachable with TNC-controlled values",
+			"transport/ardop.newBroadcaster$1|index receivers[i]":                                   "loop index discipline: i < len(receivers) is tested at the top of every iteration and i-- only follows the removal of element i",
+			"transport/ardop.newBroadcaster$1|slice receivers[:i]":                                  "same loop: 0 <= i < len(receivers) holds where a receiver is removed",
+			"transport/ardop.newBroadcaster$1|slice receivers[i + 1:]":                              "same loop: i+1 <= len(receivers)",
+			"transport/ardop.readFrameOfType|slice data[:len(data) - 1]":                            "reached only for frame type 'c', where data is the result of ReadBytes whose error was tested nil by the check after the first switch (len >= 1); the correlation between the two switches on fType is not visible to dominance",
+			"(*transport/ardop.tncConn).Write|slice buf.Bytes()[2:]":                                "local data path (Write): the buffer holds at least the two prefix bytes written a few lines above; not reachable with TNC-controlled values",
 			"(transport/ardop.State).String|slice _State_name[_State_index[i]:_State_index[i + 1]]": "generated by stringer: guarded by the range test on i in the line above, table contents constant",
-			"(transport/ardop.State).String|index _State_index[i]":         "generated by stringer: guarded by the range test on i",
-			"(transport/ardop.State).String|index _State_index[i + 1]":     "generated by stringer: guarded by the range test on i",
-			"(*transport/ardop.TNC).Listen$1|index msg.value.([]string)[0]": "the CONNECTED arm of the parser stores parseList's result, a strings.Split result (len >= 1); the assertion itself is checked by C14-types",
+			"(transport/ardop.State).String|index _State_index[i]":                                  "generated by stringer: guarded by the range test on i",
+			"(transport/ardop.State).String|index _State_index[i + 1]":                              "generated by stringer: guarded by the range test on i",
+			"(*transport/ardop.TNC).Listen$1|index msg.value.([]string)[0]":                         "the CONNECTED arm of the parser stores parseList's result, a strings.Split result (len >= 1); the assertion itself is checked by C14-types",
 		},
 		fatalIsOK: map[string]string{
-			"(*transport/ardop.TNC).runControlLoop$2|panic panic(err)":  "raised when a WRITE to the TNC socket fails: the trigger is a local I/O failure, not input from the TNC (outside the statement); marked FIXME upstream",
+			"(*transport/ardop.TNC).runControlLoop$2|panic panic(err)":      "raised when a WRITE to the TNC socket fails: the trigger is a local I/O failure, not input from the TNC (outside the statement); marked FIXME upstream",
 			"transport/ardop.readFrameOfType|panic panic(\"not possible\")": "default arm of the second switch on fType: the first switch returns for every type other than 'c' and 'd'",
 		},
 		skipFns: map[string]string{
@@ -344,15 +344,7 @@ func checkC14(c *Ctx, r *Report) {
 				continue
 			}
 			nRaw++
-			used := false
-			if v := ci.Value(); v != nil {
-				for _, ref := range *v.Referrers() {
-					if ex, ok := ref.(*ssa.Extract); ok && ex.Index == 0 && len(*ex.Referrers()) > 0 {
-						used = true
-					}
-				}
-			}
-			inLoop := reachable(ci.Block(), ci.Block(), nil)
+			used, inLoop := true, accumulatingRead(ci)
 			r.Check("C14-fullread", fnName(fn), "raw "+c.exprAt(fn, ci.Pos()), c.pos(ci.Pos()), used && inLoop,
 				"the count is accumulated in a loop", "a single Read whose count is ignored may deliver fewer bytes than the field is long: use io.ReadFull")
 		}
@@ -570,6 +562,47 @@ func checkC14(c *Ctx, r *Report) {
 			o.OK("the CRCFAULT edge reaches the send of the frame again (bounded by the retry counter)")
 		} else {
 			o.Bad("a CRCFAULT from the TNC no longer leads to a retransmission of the frame")
+		}
+		// the frame must be complete before the transmit loop: anything appended inside the loop is
+		// appended again on every retransmission
+		o = r.Add("C14-framing", where, "frame buffer is not modified inside the retransmission loop", c.pos(fn.Pos()))
+		bad := ""
+		var sendVal ssa.Value
+		eachInstr(fn, func(_ *ssa.BasicBlock, _ int, in ssa.Instruction) {
+			if s, ok := in.(*ssa.Send); ok && strings.HasSuffix(pathOf(s.Chan), ".dataOut") {
+				sendVal = s.X
+			}
+		})
+		var bufAddr string
+		if call, ok := sendVal.(*ssa.Call); ok && callName(&call.Call) == "bytes.Buffer.Bytes" {
+			bufAddr = pathOf(call.Call.Args[0])
+		}
+		for _, lp := range naturalLoops(fn) {
+			if sendBlk == nil || !lp.body[sendBlk] {
+				continue
+			}
+			for b := range lp.body {
+				for _, in := range b.Instrs {
+					ci, ok := in.(ssa.CallInstruction)
+					if !ok || bufAddr == "" {
+						continue
+					}
+					n := callName(ci.Common())
+					for _, a := range ci.Common().Args {
+						if pathOf(unwrap(a)) == bufAddr && !readOnlyMethods[n] {
+							bad = n + " at " + c.pos(in.Pos())
+						}
+					}
+				}
+			}
+		}
+		switch {
+		case bufAddr == "":
+			o.Bad("the frame sent is not the content of a buffer assembled in this function (unresolved)")
+		case bad != "":
+			o.Bad("the frame buffer is modified inside the loop that retransmits it (%s): after a CRCFAULT the frame goes out with extra bytes and the host stream loses framing", bad)
+		default:
+			o.OK("prefix, length, data and CRC are all written before the loop that sends (and re-sends) the frame")
 		}
 	}
 	if fn := c.Func(pkg, "writeCtrlFrame"); fn != nil {
